@@ -28,15 +28,16 @@ fn part_c(prop: &str, tier: &str, sink: &Sink, ev: &mut Evidence) {
     // quick: quick leaf set to depth 2, tiny leaf set (bounds 1.0.0, 2.0.0) to depth 3.  thorough: thorough leaf set to depth 2, and additionally the
     // quick leaf set to depth 3 (every new depth-2 state against every leaf, both orders).
     // Both tiers additionally run the "exotic" leaf set (components above 2^32, tags whose numeric and
-    // textual orders disagree): depth 1 in quick, depth 2 in thorough.
+    // textual orders disagree) and the "longtag" leaf set (tags of three or four identifiers sharing
+    // their first two): depth 1 in quick, depth 2 in thorough.
     let runs: Vec<(&str, bool, bool)> = if tier == "thorough" {
-        vec![("thorough", true, false), ("quick", true, true), ("exotic", true, false), ("bits-all", false, false)]
+        vec![("thorough", true, false), ("quick", true, true), ("exotic", true, false), ("bits-all", false, false), ("longtag", true, false)]
     } else {
-        vec![(tier, true, false), ("tiny", true, true), ("exotic", false, false), ("bits", false, false)]
+        vec![(tier, true, false), ("tiny", true, true), ("exotic", false, false), ("bits", false, false), ("longtag", false, false)]
     };
     let mut per_run = vec![];
     for (leafset, depth2, depth3) in runs {
-        let (e, out) = engine_c::explore(prop, leafset, sink, depth2, triples && leafset != "exotic" && !leafset.starts_with("bits"), depth3);
+        let (e, out) = engine_c::explore(prop, leafset, sink, depth2, triples && leafset != "exotic" && leafset != "longtag" && !leafset.starts_with("bits"), depth3);
         let c = &out.counters;
         ev.evaluations += c.pairs + c.new_states + c.triples;
         ev.distinct_nontrivial += c.nontrivial_pairs;
@@ -298,6 +299,12 @@ fn main() {
             _ => engine_d::c16_universe(),
         };
         println!("{}", serde_json::to_string(&json!({"versions": engine_d::universe_texts(&u)})).unwrap());
+        return;
+    }
+    if args[0] == "c06-deep" {
+        // child side of C06's wide-operand family (engine_b6::deep_family)
+        silence_panics();
+        engine_b6::deep_child(&args[1], args[2].parse().unwrap_or(1000));
         return;
     }
     if args[0] == "probe" {
